@@ -169,7 +169,7 @@ def bounds(tier="quick"):
     return res.out("inconclusive", f"RLX {bad}; candidates do not reproduce")
 
 
-def on_grid(kind="decimal", tier="quick"):
+def on_grid(kind="decimal", tier="quick", rates_kind="nondyadic"):
     """An arrival that IS a tick boundary (k/tps as a decimal, or the value gentrace writes for tick k)
     must be delivered in tick k.  RLX cannot decide exact boundaries; bit-exact search per rate."""
     res = Result()
@@ -190,7 +190,11 @@ def on_grid(kind="decimal", tier="quick"):
         enc_t = k - 1 if enc[0] else (k if enc[1] else (k + 1 if enc[2] else None))
         if real_t is not None and enc_t != real_t:
             return res.out("inconclusive", f"translator self-test: encoding delivers k={k}@{tp} in tick {enc_t}, real code in {real_t}")
-    rates = [1, 2, 3, 4, 7, 10, 100, 1000] if tier == "quick" else [1, 2, 3, 4, 5, 6, 7, 8, 10, 16, 20, 50, 60, 100, 128, 1000, 10000, 100000]
+    if rates_kind == "dyadic":
+        # tick length 1/tps is exact: the current tree delivers every on-grid arrival on time (must stay so)
+        rates = [1, 2, 4, 8, 128, 1024] if tier == "quick" else [1, 2, 4, 8, 16, 32, 64, 128, 256, 512, 1024, 4096, 65536]
+    else:
+        rates = [3, 7, 10, 100, 1000] if tier == "quick" else [3, 5, 6, 7, 10, 20, 50, 60, 100, 1000, 10000, 100000]
     exact_rates = []
     for tp in rates:
         dom = A.FPX(bw=32)
@@ -211,3 +215,89 @@ def on_grid(kind="decimal", tier="quick"):
     if len(exact_rates) == len(rates):
         return res.out("discharged", f"on-grid ({kind}) arrivals delivered in their own tick: FPX unsat for k in [0,1e6] at rates {rates}")
     return res.out("inconclusive", f"FPX decided only rates {exact_rates} of {rates}")
+
+
+# ---- grouping of equal arrival times -----------------------------------------------------------
+def grouping_test():
+    """The test with which CSVWorkloadReader.batch_by_arrival decides that a pipeline belongs to the
+    current batch (compares its arrival with the batch's arrival)."""
+    f = X.func(X.load(CSV), "CSVWorkloadReader.batch_by_arrival")
+    for n in ast.walk(f):
+        if isinstance(n, ast.If):
+            t = n.test
+            if X.mentions(t, "current_arrival_seconds") and X.mentions(t, "pipeline_arrival") and not (
+                    isinstance(t, ast.Compare) and any(isinstance(c, ast.Constant) and c.value is None for c in t.comparators)):
+                return t
+    raise X.NotFound("grouping test in CSVWorkloadReader.batch_by_arrival")
+
+
+def replay_grouping(a, b, tps):
+    """Two pipelines with arrivals a <= b through the real reader + WorkloadTrace: each must be delivered in
+    the first tick whose start is >= its own arrival (outside the rounding zone)."""
+    import_repo()
+    from eudoxia.workload.csv_io import CSVWorkloadReader
+    from eudoxia.workload.workload import PipelineArrival
+    from eudoxia.workload.pipeline import Pipeline
+    from eudoxia.utils import Priority
+
+    class R(CSVWorkloadReader):
+        def __init__(self):
+            pass
+
+        def batch_by_pipeline(self):
+            yield PipelineArrival(a, Pipeline("pa", Priority.QUERY))
+            yield PipelineArrival(b, Pipeline("pb", Priority.QUERY))
+    wl = R().get_workload(tps)
+    start = max(0, int(a * tps) - 2)
+    wl.current_tick = start
+    got = {}
+    for t in range(start, start + 8):
+        for p in wl.run_one_tick():
+            got[p.pipeline_id] = t
+    for pid, arr in (("pa", a), ("pb", b)):
+        x = Fraction(arr) * tps
+        lo, hi = math.ceil(x * (1 - TOL)), math.ceil(x * (1 + TOL))
+        t = got.get(pid)
+        if t is None:
+            return f"C13:pipeline_not_delivered arrival={arr!r} tps={tps}"
+        if t < lo:
+            return f"C13:delivered_before_arrival arrival={arr!r} tps={tps} tick={t} (grouped with arrival {a!r})"
+        if t > hi + 1:
+            return f"C13:delivered_more_than_one_tick_late arrival={arr!r} tps={tps} tick={t}"
+    return ""
+
+
+def grouping(tier="quick"):
+    """Pipelines put into one batch are delivered together, at the tick of the batch's FIRST arrival: so the
+    grouping test may only hold for arrivals that map to the same tick.  For each listed rate:
+    grouped(a, b) and delivered(a, t) and not delivered(b, t) is unsat (RLX + monotone rounding)."""
+    res = Result()
+    test = grouping_test()
+    res.encoded.append(f"batch_by_arrival: {X.src(test)}")
+    rates = [1, 2, 3, 4, 10, 100, 1000, 100000] if tier == "quick" else [1, 2, 3, 4, 5, 7, 8, 10, 16, 60, 100, 128, 1000, 10000, 99999, 100000]
+    for tp in rates:
+        dom = A.RLX(axioms=True)
+        a, b, t = dom.float_var("a"), dom.float_var("b"), dom.int_var("t")
+        env = A.Env(dom, {"pipeline_arrival.arrival_seconds": b, "current_arrival_seconds": a})
+        g = A.ev(test, env)
+        da = delivered(dom, a, t, tp)
+        db = delivered(dom, b, t, tp)
+        rng = [a.t >= 0, b.t >= a.t, b.t * tp <= 10 ** 7, t.t >= 0, t.t <= 10 ** 7 + 2]
+        r, m = solve(res, dom.side + rng + [g.t, da.t, z3.Not(db.t)], 60000)
+        if r == "unsat":
+            continue
+        if r == "sat":
+            av, bv = float(A.real_to_fraction(m, a.t)), float(A.real_to_fraction(m, b.t))
+            rep = replay_grouping(av, bv, tp)
+            if rep:
+                return res.out("violated", rep, {"replay": {"kind": "kn", "func": "vf.kernels.c13:replay_grouping", "args": dict(a=av, b=bv, tps=tp)}})
+            # a handful of adversarial pairs around tick boundaries
+            for k in (2, 7, 1000):
+                for eps in (5e-10, 1e-12, 1e-7):
+                    rep = replay_grouping(k / tp, k / tp + eps, tp)
+                    if rep:
+                        return res.out("violated", rep, {"replay": {"kind": "kn", "func": "vf.kernels.c13:replay_grouping",
+                                                                    "args": dict(a=k / tp, b=k / tp + eps, tps=tp)}})
+            return res.out("inconclusive", f"RLX sat at rate {tp}; candidate ({av!r}, {bv!r}) does not reproduce")
+        return res.out("inconclusive", f"RLX {r} at rate {tp}")
+    return res.out("discharged", f"arrivals grouped into one batch always map to the same tick: RLX(+monotone rounding) unsat at rates {rates}")
